@@ -53,6 +53,10 @@ def run(chk, decks, clauses, seed, optsets, npts=110, decorate=None, lo=-11, hi=
     tid = 0
     for i, d in enumerate(decks):
         d = adeck.normalise(d)
+        if i % 3 == 1 and not any(c.get('like') for c in d['cells']):
+            d = adeck.renumber(d, *adeck.RENUMBERINGS[1 + (i // 3) % 3])
+        if i % 4 == 2:
+            d['plusspell'] = True        # '+3' is a valid MCNP number
         if decorate:
             decorate(d, rng)
         d['pts'] = adeck.grid_points(rng, npts, lo, hi)
